@@ -6,6 +6,7 @@ import DiskfsModel.Model.Iso.Reader
 import DiskfsModel.Model.Iso.Image
 import DiskfsModel.Model.Iso.Writes
 import DiskfsModel.Model.Iso.Susp
+import Driver.IsoX
 namespace Driver.Iso
 open Diskfs Diskfs.Iso Driver
 
@@ -363,7 +364,7 @@ partial def loop (h : IO.FS.Stream) (out : IO.FS.Stream) : IO Unit := do
       | "iso.susp" => pure (Driver.Iso.suspOp args)
       | "iso.ucs2" => pure (Driver.Iso.ucs2Op args)
       | "iso.ptlookup" => pure (Driver.Iso.ptLookupOp args)
-      | _ => pure "unknown-op"
+      | _ => pure ((Driver.IsoX.dispatch op args).getD "unknown-op")
     out.putStrLn s!"model\t{id}\t{r}"
   | _ => pure ()
   loop h out
